@@ -273,13 +273,14 @@ impl Exp {
                 if exps.is_empty() {
                     return Exp::Max(vec![]);
                 }
+                //each operand is simplified once (twice per level is 2^depth for nested blocks)
+                let exps = exps.iter().map(|exp| exp.simplify()).collect::<Vec<_>>();
                 //if they are all numbers, return the max
                 let nums = exps
                     .iter()
                     .map(|exp| {
-                        let exp = exp.simplify();
                         if let Exp::Number(value) = exp {
-                            Some(value)
+                            Some(*value)
                         } else {
                             None
                         }
@@ -289,20 +290,20 @@ impl Exp {
                     Some(nums) => {
                         Exp::Number(nums.iter().cloned().fold(f64::NEG_INFINITY, f64::max))
                     }
-                    None => Exp::Max(exps.iter().map(|exp| exp.simplify()).collect::<Vec<_>>()),
+                    None => Exp::Max(exps),
                 }
             }
             Exp::Min(exps) => {
                 if exps.is_empty() {
                     return Exp::Min(vec![]);
                 }
+                let exps = exps.iter().map(|exp| exp.simplify()).collect::<Vec<_>>();
                 //if they are all numbers, return the min
                 let nums = exps
                     .iter()
                     .map(|exp| {
-                        let exp = exp.simplify();
                         if let Exp::Number(value) = exp {
-                            Some(value)
+                            Some(*value)
                         } else {
                             None
                         }
@@ -310,7 +311,7 @@ impl Exp {
                     .collect::<Option<Vec<f64>>>();
                 match nums {
                     Some(nums) => Exp::Number(nums.iter().cloned().fold(f64::INFINITY, f64::min)),
-                    None => Exp::Min(exps.iter().map(|exp| exp.simplify()).collect::<Vec<_>>()),
+                    None => Exp::Min(exps),
                 }
             }
             exp => exp.clone(),
